@@ -525,6 +525,24 @@ func runC14(c *Ctx) {
 					}
 				}
 				c14Chain(c, "NewLeaseSet2", nil, b2, "")
+				if i < 12 {
+					// under a legacy identity (DSA-SHA1: 40-byte signature), with few and with many leases
+					lid := genIdentTypes(r, 0, 0, i%2 == 0)
+					if ld, _, lerr := destination.ReadDestination(lid.Encode()); lerr == nil {
+						l2d, n2d := lease_set2.NewLeaseSet2(ld, uint32(r.U64()), uint16(r.U64()), 0, nil, opts, goodKeys, mk2([]int{1, 10, 11, 16}[i%4]), ed25519.PrivateKey(k.priv))
+						bd := built{ctorOK: n2d == nil, reparse: reparse2}
+						if n2d == nil {
+							bd.validOK = l2d.Validate() == nil
+							var e error
+							bd.bytes, e = l2d.Bytes()
+							bd.bytesOK = e == nil
+							if len(bd.bytes) < lease_set2.LEASESET2_MIN_SIZE {
+								bd.reparse = nil
+							}
+						}
+						c14Chain(c, "NewLeaseSet2 (DSA identity)", nil, bd, "")
+					}
+				}
 				// the same with an options mapping as it arrives from the wire: pairs in arbitrary order
 				{
 					kvs := []KV{{[]byte("z"), r.Bytes(r.Intn(3))}, {[]byte("m.key"), r.Bytes(2)}, {[]byte("a"), nil}, {[]byte("host"), []byte("x")}}
